@@ -486,6 +486,15 @@ def gen_C16(ctx):
             for sh in ("S", "P"):
                 out.append(case("parsel %s %s" % (sh, hx(s)), "de-reference-long", s=s[:40], shape=sh, nomodel=True))
                 out.append(case("serde %s delen %s" % (sh, hx(s)), "de-long", s=s[:40], shape=sh, reference=len(out) - 1, nomodel=True))
+    # a well-known key next to its look-alike spellings ('-' or '.' for '_', another letter case is the same key)
+    for k_ in ("repository_url", "download_url", "vcs_url", "file_name"):
+        for v_ in (k_.replace("_", "-"), k_.replace("_", "."), k_.replace("_", ""), k_ + "s", k_.upper().replace("_", "-")):
+            s_ = "pkg:generic/archive@1.0?%s=a&%s=b" % (k_, v_)
+            for sh in ("S", "P"):
+                s2_ = s_ if sh == "S" else s_.replace("generic", "npm")
+                out.append(case("parse %s %s" % (sh, hx(s2_)), "de-reference", s=s2_, shape=sh))
+                out.append(case("serde %s de %s" % (sh, hx(json.dumps(s2_))), "de-string", doc=json.dumps(s2_), s=s2_, shape=sh, reference=len(out) - 1))
+                out.append(case("serde %s ser %s" % (sh, hx(s2_)), "ser", s=s2_, shape=sh))
     # what XML / HTML / JSON layers leave behind is plain text to a PURL: deserialising such a string = parsing it
     for ent in ENTITIES:
         for tpl in ("pkg:generic/name?arch=x86#docs/a%sb", "pkg:generic/name?a=1%sb=2", "pkg:t/n%s/x@1%s?k=v%s", "pkg:t/%s", "pkg%st/n", "pkg:npm/name@1.0?arch=x86#a%sb"):
